@@ -12,7 +12,7 @@ CLAIMS = {
          "Every byte-slice argument of ~30 exported operations (Ed25519 and ECDSA forks, all decoders with valid and mutated input, request creation and finalization of all types, attester and issuer steps) is placed in guard(16)||arg||spare(0..64) with a drawn capacity; the whole buffer must be unchanged after the call and a second run with other noise must give the same (or an equally valid) result. Histories on one request state hold requests, encodings, responses and tokens (same memory) and re-check them after each of 2..8 further calls (finalize, finalize-corrupted, marshal, evaluate again, new request, verify).",
          "DESIGN.md section 4 C16", "quicwire.Append* are exempt beyond len (they are given that capacity)."),
  "C17": ("randomised concurrent plans executed under the Go race detector (-race, halt_on_error) with per-result sequential-equivalence checks",
-         "Plans (object kind, 2..16 goroutines, 1..5 operations each, start skew, GOMAXPROCS) are drawn with rapid, written to disk, and executed on a shared object that is freshly constructed inside the case (keys without any lazily computed parts); the race detector must stay silent and every result must be one a sequential call could produce. The detector is happens-before based, so an unsynchronised pair is reported whenever both accesses execute, not only when they collide in time.",
+         "Plans (object kind, 2..16 goroutines, 1..5 operations each, start skew, GOMAXPROCS) are drawn with rapid, written to disk, and executed on a shared object that is freshly constructed inside the case (keys without any lazily computed parts); the race detector must stay silent and every result must be one a sequential call could produce. The detector is happens-before based, so an unsynchronised pair is reported whenever both accesses execute, not only when they collide in time. Per issuer kind one crowd plan (100..400 goroutines, one evaluation each) looks for limits on concurrent work; a plan kind with 2..4 RSA keys compares every concurrently computed key id and encoding with the harness's own DER template (catches value confusion without a data race).",
          "DESIGN.md section 4 C17", "Schedules are sampled, not enumerated: a race in code no plan reaches concurrently, or an atomicity violation without a data race that still yields a valid result, is not found. A schedule-dependent failure cannot be shrunk; the plan file is the reproduction and is re-run 50 times on replay."),
  "C12": ("rapid PBT on four curves against an RFC 9380 hash-to-field reference written in the harness; algebraic laws (inverse, commutativity, one-at-a-time injectivity)",
          "Signing keys, blind-key byte strings (leading zeros, >= N, empty/0/1/N-1, far above N), contexts (nil/empty/0x00/long) and digests of length 0..128 are drawn on P-224/256/384/521. The blinded key must equal [r]pk with r recomputed from scratch (expand_message_xmd self-tested against RFC 9380 vectors) on crypto/elliptic; blind-key signatures must verify under it with this package and crypto/ecdsa and not under the unblinded key; unblind inverts, blindings commute, blind and context each bind the key.",
@@ -36,7 +36,7 @@ CLAIMS = {
          "For two clients and origins with distinct, shared and issuer-generated index keys, sequences of 2..4 full runs (CreateTokenRequest, VerifyRequest, issuer Evaluate, FinalizeIndex) with independent blinds, nonces and challenges must all return HKDF-SHA-384(salt=client key, ikm=client key blinded by the index key, info=IssuerOriginAlias) as computed by the harness over crypto/hmac and crypto/elliptic; IDs must be distinct across clients and distinct index keys, equal for a shared index key.",
          "DESIGN.md section 4 C08", ""),
  "C09": ("stateful model-based testing (rapid state machine) + bounded-exhaustive enumeration of all short histories",
-         "Histories over verify/finalize actions on 4 client keys (one never verified, one the negation of a verified key), 4 origins (two sharing an index key) and 5 anonymous origin IDs (one empty, one byte-equal to an issuer origin ID of the same client), with failing verifications and verifications by harness-built authentic requests with unusual blind values, are run against a fresh attester and a two-map model; every decision and returned ID must match the model, a panic is a violation, accepted pairs must stay accepted and a second ID for a bound index must stay refused after the history. All histories of length <=3 (quick) / <=4 (thorough) over a 16-letter alphabet are enumerated.",
+         "Histories over verify/finalize actions on 4 client keys (one never verified, one the negation of a verified key), 4 origins (two sharing an index key) and 5 anonymous origin IDs (one empty, one byte-equal to an issuer origin ID of the same client), with failing verifications and verifications by harness-built authentic requests with unusual blind values, are run against a fresh attester and a two-map model; every decision and returned ID must match the model, a panic is a violation, accepted pairs must stay accepted and a second ID for a bound index must stay refused after the history. All histories of length <=3 (quick) / <=4 (thorough) over a 17-letter alphabet are enumerated. Capacity: 300 clients at one attester, and one client with 8..70 origins (thorough: up to 600), with every binding re-examined at the end.",
          "DESIGN.md section 4 C09", ""),
  "C02": ("rapid PBT of attacker transformations of honest responses with a MUST-REJECT / SUCCESS-IMPLIES-VALID oracle; exhaustive single-bit sweep per sampled run",
          "Each case draws two outstanding requests under one key plus a response under a foreign key (type 3: a second issuer with the same name key and another token key), then hands the client bit-flipped, cross-wired, foreign-key, dropped/duplicated/swapped (type 5), truncated, extended, zeroed, random and re-framed responses. Success is only allowed outside the MUST-REJECT classes and only with tokens that verify independently under the pinned key and carry the request's nonce, digest and key id. Every bit position of a response is swept per type.",
@@ -48,7 +48,7 @@ CLAIMS = {
          "For drawn type-1 and type-5 tokens: every single-bit variant, foreign keys, the other type's issuer (with/without type rewrite), moved field boundaries, truncated/extended authenticators and replaced fields are verified; the verdict must equal 'authenticator == VOPRF_key(type||nonce||context||key id)' computed through circl directly, in both directions.",
          "DESIGN.md section 4 C10", "VOPRF evaluation reference is circl itself (independent of pat-go, not of circl)."),
  "C11": ("metamorphic rapid PBT over pairs of blinds (same arguments => same bytes; other blind => other request, same token) + byte-exact replay of the Rust interop vectors",
-         "Keys, challenges, nonces, salts and pairs of distinct blinds are drawn for types 1, 2, 5; requests must be reproducible and blind-dependent, tokens reproducible and blind-independent. Every shipped Rust vector is rebuilt from its blind/salt (keys parsed without pat-go) and must match token_request and token byte for byte.",
+         "Keys, challenges, nonces, salts and pairs of distinct blinds are drawn for types 1, 2, 5; requests must be reproducible and blind-dependent, tokens reproducible and blind-independent. Every shipped Rust vector is rebuilt from its blind/salt (keys parsed without pat-go) and must match token_request and token byte for byte. For types 1 and 5 the request bytes are also compared with an absolute oracle: type, key-id byte and [blind]HashToGroup(token input) computed through circl's group API (RFC 9497 context string written out), framed by the reference encoder; blinds include 1..47-byte encodings (type 1) and the top of the scalar range (type 5).",
          "DESIGN.md section 4 C11", ""),
  "C18": ("rapid PBT against a hand-written DER template (validated against the Rust implementation's SPKI) and independent key-id recomputation",
          "RSA keys drawn as numbers (1..4200-bit moduli around every DER length-form and leading-zero boundary, small/large exponents) must round-trip through both SPKI forms and equal the prescribed RSASSA-PSS DER; issuers of all four types must report SHA-256 of a serialization recomputed without pat-go; requests must carry the last id byte resp. SHA-256 of the 39-byte name key.",
